@@ -35,6 +35,8 @@ def cases(tier):
     # an info file whose name is nothing but the suffix, or '.' / '..' + suffix: its "payload" would be files/, files/. or files/.. (the trash directory)
     out += [{'pl': p, 'nm': 'plain', 'reach': r, 'cmd': c, 'orphan': 0, 'stray': st} for st in STRAYS for c in CMDS for r in REACH for p in ('file', 'tree1', 'ld-abs')
             if not (r in ('tdopt-dotdot', 'tdopt-slash') and c.startswith('rm'))]
+    # a link to a BIG file outside (48 MiB, sparse): nothing may be "given back early" through the link
+    out += [{'pl': 'lf-big', 'nm': 'plain', 'reach': 'direct', 'cmd': c, 'orphan': 0} for c in CMDS]
     # the same as an unprivileged user (the code may take other branches when geteuid() != 0; the cell still runs as root)
     out += [{'pl': p, 'nm': 'plain', 'reach': r, 'cmd': c, 'orphan': 1, 'uid': 1000} for c in ('empty', 'empty0', 'rm-star', 'empty-v') for r in ('direct', 'xdg-link')
             for p in PAYLOADS]
@@ -58,7 +60,9 @@ def fault_stage(tier, cases_, outs):
 
 
 def add_payload(W, path, pl, rel_out):
-    if pl == 'lf-abs':
+    if pl == 'lf-big':
+        W.link(path, '/outside/big')
+    elif pl == 'lf-abs':
         W.link(path, '/outside/file')
     elif pl == 'lf-rel':
         W.link(path, rel_out + 'outside/file')
@@ -146,6 +150,7 @@ def run_case(c):
     if c['reach'] == 'info-link':
         W.file('/store/files/%s' % nm, 'decoy outside the trash\n').file('/store/files/bystander', 'decoy\n')
     W.file(phys + '/keepme', 'beside files/ and info/: not a trash entry\n')
+    W.file(phys + '/directorysizes', '4096 1600000000 victim\n')          # the size cache of trash spec 1.0: beside files/ and info/ as well
     if c.get('stray'):
         W.file('%s/%s' % (infodir, c['stray']), '[Trash Info]\nPath=%s\nDeletionDate=2019-01-01T00:00:00\n' % (loc + '-stray'))
     W.file('%s/%s.trashinfo' % (infodir, nm), '[Trash Info]\nPath=%s\nDeletionDate=2020-01-01T00:00:00\n' % loc)
@@ -164,7 +169,12 @@ def run_case(c):
         argv = argv + ['--trash-dir', '/home/u/usb/../old']
     if c['reach'] == 'tdopt-slash':
         argv = argv + ['--trash-dir', '/mnt/v1/old/']
+    if c['pl'] == 'lf-big':
+        W.file('/outside/big', 'start of a big file\n')
     with cell.Sandbox(W.spec()) as sb:
+        if c['pl'] == 'lf-big':
+            import os
+            os.truncate(sb.root + '/outside/big', 48 << 20)
         before = sb.snapshot()
         flts = c.get('faults') or []
         r = sb.run(argv, env=env, cwd='/snap' if c['reach'] == 'tdopt-slash' else '/', now='2024-05-06T07:08:09', plan={'resolve': 'all', 'faults': flts} if flts else {'resolve': 'all'})
